@@ -107,6 +107,20 @@ func main() {
 		}
 		return
 	}
+	if cmd == "ppu" && len(os.Args) >= 5 {
+		w, err := world.Build(p)
+		if err != nil {
+			fmt.Fprintln(os.Stderr, "world:", err)
+			os.Exit(2)
+		}
+		T, _ := strconv.Atoi(os.Args[2])
+		md, _ := strconv.Atoi(os.Args[3])
+		ly, _ := strconv.Atoi(os.Args[4])
+		for _, l := range checks.DebugPPU(&checks.Ctx{P: p, W: w, Tier: "quick"}, int64(T), int64(md), int64(ly), len(os.Args) > 5) {
+			fmt.Println(l)
+		}
+		return
+	}
 	if cmd == "decoder" {
 		w, err := world.Build(p)
 		if err != nil {
